@@ -16,7 +16,10 @@
    N5  the DOCTYPE token is created on entering the DOCTYPE state (the standard creates it at the first
        character after "DOCTYPE"; nothing can observe the difference); a missing name is the empty name.
    N6  character references are taken in one step (Spec/CharRef.v: longest identifier of the table, the
-       attribute-value exception, the numeric replacement table). *)
+       attribute-value exception, the numeric replacement table).
+   N7  in the script data double escape start/end states the standard appends the LOWER-CASED character to the
+       temporary buffer and compares the buffer with "script"; here the character is appended as is and the
+       lower-cased buffer is compared. *)
 From Coq Require Import NArith List Bool Arith.
 From Verif Require Import Sx Str.
 From Verif.Gen Require Import Entities.
@@ -296,7 +299,7 @@ Definition sp_step (k0 : tk) : tk * bool :=
       match c with
       | None => go scriptDataEscapedState k0
       | Some x =>
-           if is_space x || (x =? 47) || (x =? 62) then go (if str_eqb (tmp k) w_script then scriptDataDoubleEscapedState else scriptDataEscapedState) (emitc x k) else if is_alpha x then (emitc x (set_tmp (tmp k ++ [lc x]) k), true) else go scriptDataEscapedState k0
+           if is_space x || (x =? 47) || (x =? 62) then go (if str_eqb (lower_str (tmp k)) w_script then scriptDataDoubleEscapedState else scriptDataEscapedState) (emitc x k) else if is_alpha x then (emitc x (set_tmp (tmp k ++ [x]) k), true) else go scriptDataEscapedState k0
       end
   | scriptDataDoubleEscapedState =>
       match c with
@@ -334,7 +337,7 @@ Definition sp_step (k0 : tk) : tk * bool :=
       match c with
       | None => go scriptDataDoubleEscapedState k0
       | Some x =>
-           if is_space x || (x =? 47) || (x =? 62) then go (if str_eqb (tmp k) w_script then scriptDataEscapedState else scriptDataDoubleEscapedState) (emitc x k) else if is_alpha x then (emitc x (set_tmp (tmp k ++ [lc x]) k), true) else go scriptDataDoubleEscapedState k0
+           if is_space x || (x =? 47) || (x =? 62) then go (if str_eqb (lower_str (tmp k)) w_script then scriptDataEscapedState else scriptDataDoubleEscapedState) (emitc x k) else if is_alpha x then (emitc x (set_tmp (tmp k ++ [x]) k), true) else go scriptDataDoubleEscapedState k0
       end
   (* ---------------- attributes ---------------- *)
   | beforeAttributeNameState =>
